@@ -35,28 +35,28 @@ def P_(groups, bounded=(), harness=None, trusted=SCHED_TRUSTED, assumptions=SCHE
 
 
 PROPS = {
-    "C01": P_(["values", "dagproto", "nodeexec", "nodebuild", "retwrap", "threads"], ["programs", "programs_flat", "reference_matrix", "operator_table"], claim="other",
+    "C01": P_(["values", "dagproto", "nodeexec", "nodebuild", "retwrap", "threads", "decorators"], ["programs", "programs_flat", "reference_matrix", "operator_table", "id_strings"], claim="other",
               explanation="Mixed: the value-level functions between the recorded node table and the returned value are proved against their contracts; that the recorded table is the meaning of the describing function (tracing) is only covered by the bounded program-level stand-in."),
     "C02": P_(["scheduler", "values", "nodeexec", "graphbuild", "nodebuild"], ["reference_matrix", "graph_build", "conformance"], dict(SW)),
-    "C03": P_(["scheduler", "values", "digraph", "dagproto", "graphbuild", "nodebuild", "subdag"], ["programs_flat", "selection", "graph_build", "reference_matrix"], dict(SW, active=True)),
-    "C04": P_(["scheduler", "values", "dagproto", "dagadmin"], ["config"], dict(SW)),
-    "C05": P_(["scheduler", "nodeexec"], ["config"], dict(SW)),
+    "C03": P_(["scheduler", "values", "digraph", "dagproto", "graphbuild", "nodebuild", "subdag"], ["programs_flat", "selection", "graph_build", "reference_matrix", "id_strings"], dict(SW, active=True)),
+    "C04": P_(["scheduler", "values", "dagproto", "dagadmin", "decorators"], ["config"], dict(SW)),
+    "C05": P_(["scheduler", "nodeexec", "decorators"], ["config"], dict(SW)),
     "C06": P_(["scheduler", "digraph", "dagproto", "graphbuild"], ["config", "graph_build", "priority_table", "conformance"], dict(SW)),
     "C07": P_(["digraph", "dagproto", "nodeexec", "dagadmin", "graphbuild"], ["priority_table", "config", "graph_build"]),
     "C08": P_(["scheduler", "dagproto", "dagadmin", "graphbuild"], ["config", "graph_build"], dict(SW)),
     "C09": P_(["scheduler", "values", "graphbuild"], ["graph_build", "conformance"], dict(SW, fail=True, active=True)),
     "C10": P_(["scheduler", "values", "graphbuild", "nodebuild", "subdag"], ["programs", "reference_matrix"], dict(SW, active=True)),
-    "C11": P_(["dagproto", "digraph", "values", "dagadmin", "graphbuild", "nodebuild"], ["setup_histories", "build_validation", "graph_build"]),
+    "C11": P_(["dagproto", "digraph", "values", "dagadmin", "graphbuild", "nodebuild", "decorators"], ["setup_histories", "build_validation", "graph_build"]),
     "C12": P_(["digraph", "dagproto", "values", "dagadmin", "graphbuild"], ["selection", "graph_build", "conformance"]),
-    "C13": P_(["digraph", "dagproto", "dagadmin", "graphbuild", "nodebuild"], ["selection_debug", "build_validation", "graph_build", "conformance"]),
+    "C13": P_(["digraph", "dagproto", "dagadmin", "graphbuild", "nodebuild", "decorators"], ["selection_debug", "build_validation", "graph_build", "conformance"]),
     "C14": P_(["scheduler", "values", "dagproto", "nodeexec"], ["profile"], dict(SW, fail=True)),
     "C15": P_(["dagproto", "values", "digraph", "dagadmin", "subdag"], ["no_leak", "selection", "compose", "config", "conformance"]),
-    "C16": P_(["threads", "dagproto", "values", "nodebuild", "subdag"], ["threads"], claim="other",
+    "C16": P_(["threads", "dagproto", "values", "nodebuild", "subdag", "decorators"], ["threads"], claim="other",
               explanation="Mixed: the ownership guards (who may take the description branch, lock discipline of threadsafe_make_dag, frames of the run path) are proved; LazyExecNode.__call__ and real interleavings are covered by the bounded thread stand-in only."),
     "C17": P_(["scheduler", "values", "dagproto"], ["async", "programs_flat"], dict(SW)),
     "C18": P_(["dagproto", "dagadmin"], ["cache"]),
     "C19": P_(["digraph", "compose", "graphbuild", "dagadmin"], ["compose", "conformance"], claim="other",
               explanation="Mixed: compose() and its recursive closure _add_missing_deps are proved against contracts taken from the property (what is copied = what the outputs need, stopping at the inputs; every positional / keyword / activation reference to an input is rewritten to the new argument holder with its key path and no other reference changes; every reference of a copied node is a key of the new table; inputs / outputs / results handed to the new DAG; the original untouched). Assumed there: the holder ids made by make_axn_id are fresh (string-level), the input aliases are distinct nodes. The VALUE computed by the composed DAG then follows from C01's contracts; it is compared with 'substitute the inputs in the original description' only by the bounded compose stand-in. One known finding (KF-C19-overlap)."),
-    "C20": P_(["retwrap", "threads", "subdag", "nodebuild"], ["programs", "reference_matrix"], claim="other",
+    "C20": P_(["retwrap", "threads", "subdag", "nodebuild"], ["programs", "reference_matrix", "id_strings"], claim="other",
               explanation="Mixed: the description branch of DAG.__call__ (stubs for supplied arguments, copy of constants / defaults, re-creation of every inner node with prefixed references and key paths, activation rules, return shape, prefix stack), construct_subdag_arg_uxns, LazyExecNode.__call__, the make_* helpers and wrap_in_uxns are proved against contracts taken from the property; ids are an uninterpreted sort, so that prefixed ids / holder ids are fresh and never capture outer ids is ASSUMED there (string-level) and exercised only by the bounded program-level stand-ins (KF-C20-twice is the case where it is false)."),
 }
